@@ -288,6 +288,12 @@ def gen_scenario(rng, wide=False):
             x0 = 200.0 + rng.randint(0, 5)
             sc.add_objects(_Lanelet(_np.array([[x0, 3.0], [x0 + 10, 3.0]]), _np.array([[x0, 1.5], [x0 + 10, 1.5]]),
                                     _np.array([[x0, 0.0], [x0 + 10, 0.0]]), 97))
+        if rng.random() < 0.4 and sc.lanelet_network.lanelets:
+            # one lanelet was corrected after it had been added (its own translate_rotate: the network's spatial index
+            # is documented to lag behind until the next structural operation); no read-only operation may catch up
+            import numpy as _np
+            lls = sc.lanelet_network.lanelets
+            lls[rng.randrange(len(lls))].translate_rotate(_np.array([0.75, -0.5]), 0.0)
     return sc, pps
 
 
